@@ -11,6 +11,7 @@ import (
 	ds "github.com/ipfs/go-datastore"
 	ipns "github.com/ipfs/go-ipns"
 	ipfscluster "github.com/ipfs/ipfs-cluster"
+	"github.com/ipfs/ipfs-cluster/config"
 	"github.com/ipfs/ipfs-cluster/consensus/crdt"
 	"github.com/ipfs/ipfs-cluster/consensus/raft"
 	"github.com/ipfs/ipfs-cluster/datastore/inmem"
@@ -84,6 +85,12 @@ func (g *Gater) InterceptUpgraded(network.Conn) (bool, control.DisconnectReason)
 // does (private network, noise+tls, TCP, dual DHT, signed gossipsub), plus a
 // connection gater.
 func NewNetHost(ctx context.Context, key crypto.PrivKey, secret []byte, store ds.Datastore, g *Gater) (host.Host, *pubsub.PubSub, *dual.DHT, error) {
+	return NewNetHostPS(ctx, key, secret, store, g)
+}
+
+// NewNetHostPS is NewNetHost with the gossipsub options chosen by the caller
+// (none given = signed messages, strict verification, as the cluster does).
+func NewNetHostPS(ctx context.Context, key crypto.PrivKey, secret []byte, store ds.Datastore, g *Gater, psOpts ...pubsub.Option) (host.Host, *pubsub.PubSub, *dual.DHT, error) {
 	var idht *dual.DHT
 	var err error
 	opts := []libp2p.Option{
@@ -113,7 +120,10 @@ func NewNetHost(ctx context.Context, key crypto.PrivKey, secret []byte, store ds
 		g.h = h
 		g.mu.Unlock()
 	}
-	ps, err := pubsub.NewGossipSub(ctx, h, pubsub.WithMessageSigning(true), pubsub.WithStrictSignatureVerification(true))
+	if len(psOpts) == 0 {
+		psOpts = []pubsub.Option{pubsub.WithMessageSigning(true), pubsub.WithStrictSignatureVerification(true)}
+	}
+	ps, err := pubsub.NewGossipSub(ctx, h, psOpts...)
 	if err != nil {
 		h.Close()
 		return nil, nil, nil, err
@@ -193,6 +203,11 @@ type NetPeer struct {
 	// SlowRaft > 0 delays every read on incoming Raft streams (see SlowHost).
 	SlowRaft time.Duration
 	Slow     *SlowHost
+	// RealHost: host, pubsub and DHT come from ipfscluster.NewClusterHost (the
+	// code's own construction, signature policy included); no gater then.
+	RealHost bool
+	// PubSubOpts replaces the gossipsub options of a harness-built host.
+	PubSubOpts []pubsub.Option
 }
 
 // PrepareHost creates the peer's libp2p host (so that addresses can be
@@ -202,7 +217,19 @@ func (p *NetPeer) PrepareHost(ctx context.Context) error {
 		p.Gater = NewGater()
 	}
 	p.Store = inmem.New()
-	h, ps, idht, err := NewNetHost(ctx, p.Key, NetSecret, p.Store, p.Gater)
+	var h host.Host
+	var ps *pubsub.PubSub
+	var idht *dual.DHT
+	var err error
+	if p.RealHost {
+		pid, perr := peer.IDFromPrivateKey(p.Key)
+		if perr != nil {
+			return perr
+		}
+		h, ps, idht, err = ipfscluster.NewClusterHost(ctx, &config.Identity{ID: pid, PrivateKey: p.Key}, QuietConfig(NetSecret), p.Store)
+	} else {
+		h, ps, idht, err = NewNetHostPS(ctx, p.Key, NetSecret, p.Store, p.Gater, p.PubSubOpts...)
+	}
 	if err != nil {
 		return err
 	}
